@@ -196,7 +196,7 @@ def rule_alias(repo, res):
                     res.oblige("E-ALIAS", f"{c}.{m} `{norm(n)}` copies the list", ok=True)
 
 
-def rule_globals(repo, res, modules=("parser", "decoder", "encoder", "lexer", "token", "grammar")):
+def rule_globals(repo, res, modules=("parser", "decoder", "encoder", "lexer", "token", "grammar", "__init__", "new"), floor=25):
     """No module-level or class-level mutable is written from a function, and
     parameters with mutable defaults are not mutated."""
     n = 0
@@ -253,7 +253,7 @@ def rule_globals(repo, res, modules=("parser", "decoder", "encoder", "lexer", "t
                                 "every later use of the module/class", where=f"pvl/{mn}.py:{x.lineno}"))
             res.oblige("E-GLOBAL", f"{mn}.{fn.name} writes no module/class-level state nor a default argument", ok=not bad,
                        nontrivial=False)
-    res.floor("functions scanned for shared-state writes", n, 25)
+    res.floor("functions scanned for shared-state writes", n, floor)
 
 
 # ---------------------------------------------------------------- C08
@@ -564,3 +564,37 @@ def rule_one_shot_iterators(repo, res, families=("PVLParser", "PVLDecoder", "PVL
                                     "use exhausts it, so every later call on the same instance sees an empty table and "
                                     "behaves differently from a fresh instance", where=f"pvl/{ci.module.name}.py:{x.lineno}"))
     res.floor("attribute stores scanned for one-shot iterators", n, 30)
+
+
+def rule_e5(repo, res):
+    """E5: the permissive parser turns *any* ParseError that carries a token into "missing value after '='"
+    (OmniParser.parse_assignment_statement).  So only the designated site -- running out of tokens right after the
+    '=' of an assignment -- may attach a token to a ParseError; every other ParseError raised below
+    parse_assignment_statement (unterminated set/sequence, missing '=') must not carry one."""
+    omni = repo.method("OmniParser", "parse_assignment_statement")
+    tolerant = any(isinstance(h, ast.ExceptHandler) and h.type is not None and "ParseError" in norm(h.type) for h in ast.walk(omni))
+    res.oblige("E5", "OmniParser.parse_assignment_statement converts only ParseErrors that carry a token", ok=tolerant)
+    sites = []
+    for cname in repo.subclasses("PVLParser"):
+        for m, fn in repo.classes[cname].methods.items():
+            for r in ast.walk(fn):
+                if isinstance(r, ast.Raise) and isinstance(r.exc, ast.Call) and norm(r.exc.func).endswith("ParseError"):
+                    has_token = len(r.exc.args) >= 2 or any(k.arg == "token" for k in r.exc.keywords)
+                    sites.append((cname, m, fn, r, has_token))
+    res.floor("ParseError raise sites in the parser", len(sites), 3)
+    for cname, m, fn, r, has_token in sites:
+        designated = False
+        if has_token and m == "parse_assignment_statement":
+            p = getattr(r, "_parent", None)
+            if isinstance(p, ast.ExceptHandler) and p.type is not None and "StopIteration" in norm(p.type):
+                t = getattr(p, "_parent", None)
+                designated = isinstance(t, ast.Try) and any("parse_value" in norm(b) for b in t.body)
+        ok = (not has_token) or designated
+        res.oblige("E5", f"{cname}.{m} `{norm(r, 50)}`: {'carries the token at the designated site' if has_token else 'carries no token'}", ok=ok)
+        if not ok:
+            res.add(Finding("E5", f"{cname}.{m}", "raise ParseError(msg, <token>)",
+                            f"{cname}.{m} raises a ParseError that carries a token outside the one designated site (tokens "
+                            "ran out right after '=' in parse_assignment_statement); OmniParser.parse_assignment_statement "
+                            "treats every token-carrying ParseError as a missing value, so this ill-formed text is "
+                            "accepted and the statement replaced by an empty value under a bogus name",
+                            where=f"pvl/parser.py:{r.lineno}"))
